@@ -97,7 +97,8 @@ def case(draw):
     kind = draw(st.sampled_from(["dimmag", "dimmag", "pair_equiv", "pair_near", "pair_rand", "spell", "named"]))
     c = {"kind": kind}
     if kind == "dimmag":
-        c["t"] = draw(units.tree(max_leaves=6))
+        c["t"] = draw(st.one_of(units.tree(max_leaves=6), units.tree(max_leaves=6), units.tree(max_leaves=6), units.opaque_power(),
+                                st.builds(lambda a, b: {"k": "mul", "a": a, "b": b}, units.opaque_power(), units.tree(max_leaves=2))))
         c["mode"] = draw(st.sampled_from(["unit", "maker", "symbol", "constant", "singular"]))
     elif kind == "named":
         c["defs"] = [{"id": 0, "tree": draw(units.tree(max_leaves=3)), "label": draw(st.booleans())}]
